@@ -287,15 +287,15 @@ Fixpoint uexpr_dom (f : ref -> bool) (e : uexpr) : bool :=
 Definition kind_of_how (how : string) : jkind :=
   match spark_kind how with Some JCross => JInner | Some k => k | None => JInner end.
 
-Definition step_dom (s : st) (R : frame) (rbase : nat) (octes : list cmeta) (on : onform) (how : string) (same_branch : bool)
+Definition step_dom (c : howcfg) (s : st) (R : frame) (rbase : nat) (octes : list cmeta) (on : onform) (how : string) (same_branch : bool)
   (stale : option nat) : bool :=
   let k := kind_of_how how in
   let has_joins := negb (Nat.eqb (List.length (s_tabs s)) 1) in
   let out' := s_sel s ++ map (fun n => (ECol (qn (List.length (s_tabs s)) n), n)) (cols R) in
   match stale with None => true | Some _ => false end &&
-  smem how documented && nodupb (cols R) && negb (jkind_eqb k JRight) &&
+  how_accepted c how && nodupb (cols R) && negb (jkind_eqb k JRight) &&
   match on with
-  | OnNone => smem how ["inner"; "cross"] && forallb (complete s) (cols R)
+  | OnNone => none_accepted c how && (is_semi_anti k || forallb (complete s) (cols R))
   | OnNames ks =>
       negb (match ks with [] => true | _ => false end) && nodupb ks && forallb (key_ok s R) ks
       && (is_semi_anti k || forallb (complete s) (filter (fun n => negb (smem n ks)) (cols R)))
@@ -617,17 +617,10 @@ Lemma resolve_iexpr_prefix tcs (f : nat * string -> expr) (g : nat * string -> s
   = map (fun p => (f p, g p)) ps ++ resolve_items tcs seen b.
 Proof. induction ps as [|p ps IH]; simpl; [reflexivity|]. rewrite IH. reflexivity. Qed.
 
-Lemma documented_kind c how :
-  cfg_how_ok c = true -> smem how documented = true ->
-  exists k0, spark_kind how = Some k0 /\ flags_for k0 (impl_flags c false how) = true.
-Proof.
-  intros Hc Hd. apply smem_In in Hd. apply (how_total c Hc how Hd).
-Qed.
-
 (** * one join step *)
 Theorem join_step_ok c s R rbase octes on how sb stale :
   cfg_how_ok c = true -> cfg_none_ok c = true ->
-  inv s = true -> step_dom s R rbase octes on how sb stale = true ->
+  inv s = true -> step_dom c s R rbase octes on how sb stale = true ->
   exists s', m_join c s R rbase octes on how sb stale = Some s'
     /\ sp_join (sp_of s) R rbase on how = Some (sp_of s')
     /\ (keeps_inv on how = true -> inv s' = true).
@@ -643,7 +636,7 @@ Proof.
   apply andb_true_iff in Hdom. destruct Hdom as [Hdom Hnd].
   apply andb_true_iff in Hdom. destruct Hdom as [Hst Hdoc].
   destruct stale as [st0|]; [discriminate|]. clear Hst.
-  destruct (documented_kind c how Hcfg Hdoc) as [k0 [Hk0 Hflags]].
+  destruct (accepted_kind c how Hcfg Hdoc) as [k0 [Hk0 Hflags]].
   assert (Hkind : kind_of_how how = match k0 with JCross => JInner | _ => k0 end).
   { unfold kind_of_how. rewrite Hk0. destruct k0; reflexivity. }
   set (k' := match k0 with JCross => JInner | _ => k0 end) in *.
@@ -657,22 +650,53 @@ Proof.
   destruct on as [|ks|es].
   - (* no condition *)
     apply andb_true_iff in Hon. destruct Hon as [Hic Hcomp].
-    assert (Hn : how_ok_none c how = true).
-    { unfold cfg_none_ok in Hcfgn. rewrite forallb_forall in Hcfgn. apply Hcfgn. apply smem_In. exact Hic. }
-    unfold how_ok_none in Hn. rewrite Hk0 in Hn.
-    destruct (f_kind (impl_flags c true how)) as [[]|] eqn:Ek; try discriminate.
-    apply andb_true_iff in Hn. destruct Hn as [Hn N4]. apply negb_true_iff in N4.
-    apply andb_true_iff in Hn. destruct Hn as [Hn N3]. apply negb_true_iff in N3.
-    apply andb_true_iff in Hn. destruct Hn as [N1 N2].
-    destruct (sel_all s R Hcanon Hnd Hcomp) as [S1 S2].
-    eexists. split; [|split].
-    + unfold m_join. rewrite Ek, N2, N3, N4. fold j. rewrite Hfr, Hff.
-      unfold order_of. rewrite S1. reflexivity.
-    + unfold sp_join, sp_of. simpl. rewrite Hk0.
+    destruct (none_accepted_ok c how Hcfgn Hic) as [k1 [Hk1 [Hnd1 Hnf]]].
+    rewrite Hk0 in Hk1. inversion Hk1; subst k1. clear Hk1.
+    destruct (jkind_eqb k0 JInner || jkind_eqb k0 JCross) eqn:Eprod.
+    + (* inner / cross: the product *)
       assert (Hk0' : k0 = JInner \/ k0 = JCross).
-      { apply orb_true_iff in N1. destruct N1 as [N1|N1]; apply jkind_eqb_eq in N1; auto. }
-      destruct Hk0' as [-> | ->]; simpl; rewrite Ewh; reflexivity.
-    + intros _. unfold inv. simpl. rewrite S2, Ewh. reflexivity.
+      { apply orb_true_iff in Eprod. destruct Eprod as [N1|N1]; apply jkind_eqb_eq in N1; auto. }
+      assert (Hnf' : match f_kind (impl_flags c true how) with
+                     | Some JCross => f_cross (impl_flags c true how) && negb (f_left_only (impl_flags c true how))
+                                      && negb (f_right_side (impl_flags c true how))
+                     | _ => false end = true) by (destruct Hk0' as [-> | ->]; exact Hnf).
+      destruct (f_kind (impl_flags c true how)) as [[]|] eqn:Ek; try discriminate.
+      apply andb_true_iff in Hnf'. destruct Hnf' as [Hn N4]. apply negb_true_iff in N4.
+      apply andb_true_iff in Hn. destruct Hn as [N2 N3]. apply negb_true_iff in N3.
+      assert (Hsa : is_semi_anti k' = false) by (unfold k'; destruct Hk0' as [-> | ->]; reflexivity).
+      rewrite Hsa in Hcomp. simpl in Hcomp.
+      destruct (sel_all s R Hcanon Hnd Hcomp) as [S1 S2].
+      eexists. split; [|split].
+      * unfold m_join. rewrite Ek, N2, N3, N4. fold j. rewrite Hfr, Hff.
+        unfold order_of. rewrite S1. reflexivity.
+      * unfold sp_join, sp_of. simpl. rewrite Hk0.
+        destruct Hk0' as [-> | ->]; simpl; rewrite Ewh; reflexivity.
+      * intros _. unfold inv. simpl. rewrite S2, Ewh. reflexivity.
+    + (* any other kind: kept, joined ON TRUE *)
+      apply orb_false_iff in Eprod. destruct Eprod as [E1 E2].
+      assert (Hne : h_none_eq c = true).
+      { unfold none_dom in Hnd1. rewrite E1, E2 in Hnd1. rewrite !orb_false_r in Hnd1. exact Hnd1. }
+      assert (Hnf' : flags_for k0 (impl_flags c true how) = true) by (destruct k0; try discriminate; exact Hnf).
+      apply flags_for_spec in Hnf'. fold k' in Hnf'.
+      destruct Hnf' as [Gk [Glo [Gcr [Gfu Gri]]]]. rewrite Hnr in Gri.
+      assert (Hspec : forall out : unit, sp_join (sp_of s) R rbase OnNone how
+                      = Some (mkSp (s_tabs s ++ [R]) (s_bases s ++ [rbase]) (s_joins s ++ [(k', Some (ELit (VBool true)))])
+                                   (if is_semi_anti k' then s_sel s else s_sel s ++ map (fun n => (ECol (qn j n), n)) (cols R)) [])).
+      { intros _. unfold sp_join, sp_of. simpl. rewrite Hk0, Ewh. fold j. unfold k' in *.
+        destruct k0; cbn [jkind_eqb] in E1, E2, Hnr; try discriminate; reflexivity. }
+      destruct (is_semi_anti k') eqn:Esa.
+      * destruct (sel_left_only s R Hcanon) as [S1 S2].
+        eexists. split; [|split].
+        -- unfold m_join. rewrite Gk, Gcr, Glo, Gri, Hne. fold j. rewrite Hfr', Hff.
+           unfold order_of. rewrite S1. reflexivity.
+        -- rewrite (Hspec tt). unfold sp_of. simpl. rewrite Ewh. reflexivity.
+        -- intros _. unfold inv. simpl. rewrite S2, Ewh. reflexivity.
+      * simpl in Hcomp. destruct (sel_all s R Hcanon Hnd Hcomp) as [S1 S2].
+        eexists. split; [|split].
+        -- unfold m_join. rewrite Gk, Gcr, Glo, Gri, Hne. fold j. rewrite Hfr', Hff.
+           unfold order_of. rewrite S1. reflexivity.
+        -- rewrite (Hspec tt). unfold sp_of. simpl. rewrite Ewh. reflexivity.
+        -- intros _. unfold inv. simpl. rewrite S2, Ewh. reflexivity.
   - (* names *)
     apply andb_true_iff in Hon. destruct Hon as [Hon Hcomp].
     apply andb_true_iff in Hon. destruct Hon as [Hon Hkeys].
@@ -765,8 +789,8 @@ Proof.
 Qed.
 
 (** * chains of joins, by induction *)
-Definition jstep_dom (s : st) (x : jstep) : bool :=
-  step_dom s (j_right x) (j_base x) (j_octes x) (j_on x) (j_how x) (j_same_branch x) (j_stale x).
+Definition jstep_dom (c : howcfg) (s : st) (x : jstep) : bool :=
+  step_dom c s (j_right x) (j_base x) (j_octes x) (j_on x) (j_how x) (j_same_branch x) (j_stale x).
 
 (** the domain of a chain is checked along the run: every step in [step_dom] of the state it starts from, and every
     step but the last one leaves a canonical list behind *)
@@ -774,7 +798,7 @@ Fixpoint chain_dom (c : howcfg) (s : st) (steps : list jstep) : bool :=
   match steps with
   | [] => true
   | x :: r =>
-      jstep_dom s x &&
+      jstep_dom c s x &&
       match r with
       | [] => true
       | _ => keeps_inv (j_on x) (j_how x) &&
@@ -860,7 +884,8 @@ Proof.
   destruct (f_kind _) as [k|]; [|discriminate].
   destruct (f_cross _).
   - inversion E; simpl. repeat split; eauto.
-  - destruct on; [discriminate| |].
+  - destruct on.
+    + destruct (h_none_eq c); [|discriminate]. inversion E; simpl. repeat split; eauto.
     + destruct (map_opt _ _); [|discriminate]. inversion E; simpl. repeat split; eauto.
     + destruct (map_opt _ _); [|discriminate]. inversion E; simpl. repeat split; eauto.
 Qed.
@@ -868,7 +893,7 @@ Qed.
 (** the implementation's single join, inside the domain: PySpark's columns, and rows = projection of the SQL join *)
 Corollary single_join_ok c : cfg_how_ok c = true -> cfg_none_ok c = true ->
   forall L lbase lctes x,
-    nodupb (cols L) = true -> jstep_dom (init_st L lbase lctes) x = true ->
+    nodupb (cols L) = true -> jstep_dom c (init_st L lbase lctes) x = true ->
     m_run c L lbase lctes [x] FNone = sp_run L lbase [x] FNone
     /\ forall fr, m_run c L lbase lctes [x] FNone = Some fr ->
          exists k cond sel,
@@ -1086,11 +1111,11 @@ Qed.
 Lemma map_ext_in' {A B} (f g : A -> B) l : (forall x, In x l -> f x = g x) -> map f l = map g l.
 Proof. apply map_ext_in. Qed.
 
-Definition right_dom (L : frame) (lbase : nat) (lctes : list cmeta) (x : jstep) : bool :=
+Definition right_dom (c : howcfg) (L : frame) (lbase : nat) (lctes : list cmeta) (x : jstep) : bool :=
   let R := j_right x in
   let out' := init_sel (cols L) ++ map (fun n => (ECol (qn 1 n), n)) (cols R) in
   match j_stale x with None => true | Some _ => false end &&
-  smem (j_how x) documented && jkind_eqb (kind_of_how (j_how x)) JRight && nodupb (cols L) && nodupb (cols R) &&
+  how_accepted c (j_how x) && jkind_eqb (kind_of_how (j_how x)) JRight && nodupb (cols L) && nodupb (cols R) &&
   match j_on x with
   | OnNone => false
   | OnNames ks =>
@@ -1123,7 +1148,7 @@ Qed.
 
 Theorem right_join_first_ok c : cfg_how_ok c = true ->
   forall L lbase lctes x,
-    right_dom L lbase lctes x = true ->
+    right_dom c L lbase lctes x = true ->
     m_run c L lbase lctes [x] FNone = sp_run L lbase [x] FNone.
 Proof.
   intros Hcfg L lbase lctes [R rbase octes on how sb stale] Hd. unfold right_dom in Hd. cbn [j_right j_how j_on j_octes j_same_branch j_base j_stale] in Hd.
@@ -1133,7 +1158,7 @@ Proof.
   apply andb_true_iff in Hd. destruct Hd as [Hd Hk].
   apply andb_true_iff in Hd. destruct Hd as [Hst Hdoc].
   destruct stale as [st0|]; [discriminate|]. clear Hst.
-  destruct (documented_kind c how Hcfg Hdoc) as [k0 [Hk0 Hflags]].
+  destruct (accepted_kind c how Hcfg Hdoc) as [k0 [Hk0 Hflags]].
   assert (Hkind : kind_of_how how = match k0 with JCross => JInner | _ => k0 end).
   { unfold kind_of_how. rewrite Hk0. destruct k0; reflexivity. }
   apply flags_for_spec in Hflags. rewrite <- Hkind in Hflags. apply jkind_eqb_eq in Hk. rewrite Hk in Hflags.
